@@ -64,6 +64,10 @@ func (s *Stream) PrepareForDecode() error {
 			if s.read() {
 				continue
 			}
+			if s.cursor < s.length {
+				// a NUL byte of the input, not the end of the window
+				return errors.ErrInvalidBeginningOfValue(nul, s.totalOffset())
+			}
 			return io.EOF
 		}
 		break
@@ -208,6 +212,12 @@ func (s *Stream) readBuf() []byte {
 }
 
 func (s *Stream) read() bool {
+	if s.cursor < s.length && s.buf[s.cursor] == nul {
+		// the scanner stopped at a NUL byte of the input itself: that is not
+		// the end of the window, and refilling here would drop the bytes
+		// that follow it
+		return false
+	}
 	if s.allRead {
 		return false
 	}
